@@ -5,7 +5,7 @@ import Splipy.Lemmas.C17Array
 # C18 — cell numbers: `generate_cell_numbers` enumerates all knot-span cells exactly once
 -/
 
-namespace Splipy.MP
+namespace Splipy.MP.C18L
 
 theorem arangeArr_data (start : ℕ) (shape : List ℕ) :
     (arangeArr start shape).data.toList = (List.range' start (shapeSize shape)).map (fun (n : ℕ) => (n : ℤ)) := by
@@ -74,4 +74,4 @@ theorem arangeArr_get (start : ℕ) {shape idx : List ℕ} (h : InRange idx shap
   rw [Array.getD_eq_getD_getElem?]
   simp [hlt]
 
-end Splipy.MP
+end Splipy.MP.C18L
